@@ -1482,6 +1482,11 @@ func (u *Unit) execLoop(fr *Frame, li *loopInfo, ins []edgeState, deliver func(f
 	}
 	for k := range st.ghost {
 		if strings.HasPrefix(k, "g:") || strings.HasPrefix(k, "calls:") || strings.HasPrefix(k, "scalls:") {
+			// a ghost that no hook can set from inside the loop (every hook that sets it waits for a call the loop
+			// body, with what it inlines and spawns, cannot make) keeps its value across the cut
+			if strings.HasPrefix(k, "g:") && u.ghostStableIn(li, fr, k[2:]) {
+				continue
+			}
 			sort := SInt
 			if strings.HasPrefix(k, "g:") {
 				sort = u.ghostSort[k[2:]]
@@ -1491,7 +1496,7 @@ func (u *Unit) execLoop(fr *Frame, li *loopInfo, ins []edgeState, deliver func(f
 	}
 	if fr.hooks != nil {
 		for _, g := range fr.hooks.Ghosts {
-			if _, ok := st.ghost["g:"+g.Name]; !ok {
+			if _, ok := st.ghost["g:"+g.Name]; !ok && !u.ghostStableIn(li, fr, g.Name) {
 				st.ghost["g:"+g.Name] = u.fresh(g.Sort, "loop_g_"+g.Name)
 			}
 		}
@@ -1891,4 +1896,107 @@ func (u *Unit) storeMapField(st *State, base Term, key string, v Val) {
 		st.heap[key+"#nil"] = u.define(StoreA(isnil, base, Eq(x.T, TZero)), "Mn")
 		st.heap[key+"#has"] = u.define(StoreA(has, base, u.fresh(SArrBool, "maphas")), "Mh")
 	}
+}
+
+// ghostStableIn: no hook of the unit (or of the always block) that sets ghost name can fire inside loop li. Only hooks
+// on calls and returns of named callees are judged; a hook on any other kind of event (loads, stores, locks, channel
+// operations, ...) is taken to fire.
+func (u *Unit) ghostStableIn(li *loopInfo, fr *Frame, name string) bool {
+	var hooks []*Hook
+	if al := u.eng.cs.Always; al != nil {
+		for i := range al.Hooks {
+			hooks = append(hooks, &al.Hooks[i])
+		}
+	}
+	if u.fc != nil {
+		for i := range u.fc.Hooks {
+			hooks = append(hooks, &u.fc.Hooks[i])
+		}
+	}
+	sets := false
+	for _, h := range hooks {
+		if h.Set != name {
+			continue
+		}
+		sets = true
+		i := strings.Index(h.Event, " ")
+		if i < 0 {
+			return false
+		}
+		kind, target := h.Event[:i], h.Event[i+1:]
+		if kind != "call" && kind != "ret" {
+			return false
+		}
+		last := target
+		if j := strings.LastIndex(last, "."); j >= 0 {
+			last = last[j+1:]
+		}
+		seen := map[*ssa.Function]bool{}
+		for b := range li.body {
+			if u.blockMayCall(b.Instrs, last, seen, 8) {
+				return false
+			}
+		}
+	}
+	return sets
+}
+
+// blockMayCall: some call in the instructions (or in what they may run: package functions, function literals,
+// goroutines, deferred calls) is to a function or method whose name is last.
+func (u *Unit) blockMayCall(instrs []ssa.Instruction, last string, seen map[*ssa.Function]bool, depth int) bool {
+	var visit func(fn *ssa.Function, depth int) bool
+	visit = func(fn *ssa.Function, depth int) bool {
+		if fn == nil || seen[fn] || depth < 0 {
+			return fn != nil && depth < 0
+		}
+		seen[fn] = true
+		for _, b := range fn.Blocks {
+			if u.blockMayCall(b.Instrs, last, seen, depth) {
+				return true
+			}
+		}
+		return false
+	}
+	for _, in := range instrs {
+		if mc, ok := in.(*ssa.MakeClosure); ok {
+			if f, ok := mc.Fn.(*ssa.Function); ok && visit(f, depth-1) {
+				return true
+			}
+		}
+		ci, ok := in.(ssa.CallInstruction)
+		if !ok {
+			continue
+		}
+		cc := ci.Common()
+		if cc.IsInvoke() {
+			if cc.Method.Name() == last {
+				return true
+			}
+			continue
+		}
+		if b, ok := cc.Value.(*ssa.Builtin); ok {
+			if b.Name() == last {
+				return true
+			}
+			continue
+		}
+		sc := cc.StaticCallee()
+		if sc == nil {
+			// a call through a function value: anything
+			return true
+		}
+		if sc.Name() == last {
+			return true
+		}
+		// only the functions of the library under verification (and of its store model) can reach the named callees;
+		// a function of another package is judged by its own name alone
+		// a function with a contract is called through the contract: what happens inside it raises no event here
+		if fc := u.eng.cs.Funcs[u.eng.funcKey(sc)]; fc != nil && !fc.Flags["inline"] {
+			continue
+		}
+		if sc.Blocks != nil && sc.Pkg != nil && (strings.HasSuffix(sc.Pkg.Pkg.Path(), "/leader") || strings.HasSuffix(sc.Pkg.Pkg.Path(), "internal/natsmock")) && visit(sc, depth-1) {
+			return true
+		}
+	}
+	return false
 }
